@@ -6,9 +6,10 @@ Models: `BytomModel.Bech32` (bech32.go + the segwit address functions of address
 shape (any length); finite character tables are closed by `decide` and lifted by lemmas.
 -/
 import BytomModel.Lemmas.Bech32
+import BytomModel.Lemmas.ConvertBits
 
 namespace BytomModel.Props.C29
-open BytomModel.Bech32 BytomModel.Lemmas.Bech32
+open BytomModel.Bech32 BytomModel.Lemmas.Bech32 BytomModel.Lemmas.ConvertBits
 
 /-! ### the bech32 checksum -/
 
@@ -122,6 +123,145 @@ theorem bech32_decode_encode (hrp data : Bytes) (hne : hrp ≠ [])
     rw [if_neg (by omega)]
     simp only [htake, hdrop, hbytes, hver]
     simp [checksum_length]
+
+/-! ### ConvertBits and segwit addresses -/
+
+/-- **`ConvertBits` round trip** (8→5 with padding, then 5→8 without), any length. -/
+theorem convertBits_roundtrip (data : Bytes) (hd : ∀ b ∈ data, b < 256) :
+    ∃ mid, convertBits data 8 5 true = .ok mid ∧ (∀ d ∈ mid, d < 32) ∧ convertBits mid 5 8 false = .ok data := by
+  obtain ⟨mid, h1, h2, _, _, h3⟩ := convertBits_8_5_8 data hd
+  exact ⟨mid, h1, h2, h3⟩
+
+/-- the shape of an encoded string: hrp, separator, then charset characters (none of them `1`) -/
+theorem encode_shape (hrp data : Bytes) (hdata : ∀ b ∈ data, b < 32) :
+    encode hrp data = .ok (hrp ++ [49] ++ (data ++ checksum hrp data).map (fun b => charset.getD b 0)) ∧
+    49 ∉ (data ++ checksum hrp data).map (fun b => charset.getD b 0) := by
+  have hall : ∀ b ∈ data ++ checksum hrp data, b < 32 := by
+    intro b hb
+    rcases List.mem_append.mp hb with h | h
+    · exact hdata b h
+    · exact checksum_lt hrp data b h
+  constructor
+  · unfold encode; rw [toChars_ok _ hall]
+  · intro h
+    obtain ⟨b, hb, e⟩ := List.mem_map.mp h
+    exact (charset_table b (hall b hb)).2.2.2.2 e
+
+/-- a network prefix the address functions work with: at least two printable characters, none
+    upper-case, short enough for a 32-byte program to fit the 90-character limit -/
+def GoodHrp (hrp : Bytes) : Prop :=
+  2 ≤ hrp.length ∧ hrp.length ≤ 24 ∧ ∀ c ∈ hrp, 33 ≤ c ∧ c ≤ 126 ∧ ¬ (65 ≤ c ∧ c ≤ 90)
+
+theorem goodHrp_nets : GoodHrp hrpMainnet ∧ GoodHrp hrpTestnet ∧ GoodHrp hrpSolonet := by
+  refine ⟨⟨by decide, by decide, by decide⟩, ⟨by decide, by decide, by decide⟩, ⟨by decide, by decide, by decide⟩⟩
+
+theorem goodHrp_lower {hrp : Bytes} (h : GoodHrp hrp) : hrp.map toLower = hrp := by
+  conv => rhs; rw [← List.map_id hrp]
+  apply List.map_congr_left
+  intro c hc
+  unfold toLower; rw [if_neg (h.2.2 c hc).2.2]; rfl
+
+def kindLen : AddrKind → Nat
+  | .pubKeyHash => 20
+  | .scriptHash => 32
+
+/-- `encodeSegWitAddress` succeeds on every 20- or 32-byte program (its decode-and-compare self
+    check never fires) and `decodeSegWitAddress` returns version 0 and the program. -/
+theorem encodeSegWit_ok (hrp prog : Bytes) (hh : GoodHrp hrp) (hp : ∀ b ∈ prog, b < 256)
+    (hl : prog.length = 20 ∨ prog.length = 32) :
+    ∃ s cs, encodeSegWit hrp 0 prog = .ok s ∧ s = hrp ++ [49] ++ cs ∧ 49 ∉ cs ∧
+      decodeSegWit s = .ok (0, prog) := by
+  obtain ⟨mid, hm1, hm2, hm3, hm4, hm5⟩ := convertBits_8_5_8 prog hp
+  have hdata : ∀ b ∈ (0 :: mid), b < 32 := by
+    intro b hb
+    rcases List.mem_cons.mp hb with rfl | h
+    · decide
+    · exact hm2 b h
+  have hmlen : mid.length ≤ 52 := by omega
+  obtain ⟨s, hs1, hs2⟩ := bech32_decode_encode hrp (0 :: mid) (by intro h; have := hh.1; simp [h] at this)
+    hh.2.2 hdata (by simp only [List.length_cons]; have := hh.2.1; omega)
+  obtain ⟨hshape, h49⟩ := encode_shape hrp (0 :: mid) hdata
+  rw [hshape] at hs1
+  injection hs1 with hs1
+  have hdec : decodeSegWit s = .ok (0, prog) := by
+    unfold decodeSegWit
+    rw [hs2]
+    simp only [hm5]
+    have h1 : ¬ (0 > 16) := by decide
+    rcases hl with hl | hl <;> simp [hl]
+  refine ⟨s, _, ?_, hs1.symm, h49, hdec⟩
+  unfold encodeSegWit
+  rw [hm1]
+  simp only
+  rw [hshape]
+  simp only
+  rw [hs1, hdec]
+  simp
+
+/-- **Address round trip.** Every 20-byte (P2WPKH) / 32-byte (P2WSH) program encodes, on every
+    network prefix, to a non-empty address string that decodes — on that network — to the same
+    kind, prefix and program. -/
+theorem address_roundtrip (kind : AddrKind) (hrp prog : Bytes) (hh : GoodHrp hrp)
+    (hp : ∀ b ∈ prog, b < 256) (hl : prog.length = kindLen kind) :
+    ∃ a, newAddress kind hrp prog = .ok a ∧ a.encodeAddress ≠ [] ∧
+      decodeAddress a.encodeAddress hrp = .ok a ∧ a.program = prog ∧ a.kind = kind := by
+  have hlow := goodHrp_lower hh
+  have hl' : prog.length = 20 ∨ prog.length = 32 := by cases kind <;> simp [kindLen] at hl <;> omega
+  obtain ⟨s, cs, hs, hshape, h49, hdec⟩ := encodeSegWit_ok hrp prog hh hp hl'
+  refine ⟨⟨kind, hrp, prog⟩, ?_, ?_, ?_, rfl, rfl⟩
+  · cases kind <;> simp [newAddress, kindLen] at hl ⊢ <;> simp [hl, hlow]
+  · simp only [Address.encodeAddress, hs]
+    rw [hshape]; simp
+  · simp only [Address.encodeAddress, hs]
+    unfold decodeAddress
+    have hlast : lastIndexOf 49 s = some hrp.length := by
+      rw [hshape, List.append_assoc]; exact lastIndexOf_append hrp cs 49 h49
+    rw [hlast]
+    simp only
+    have h2 := hh.1
+    rw [if_pos (by omega)]
+    have htake : s.take (hrp.length + 1) = hrp ++ [49] := by
+      rw [hshape]
+      have : hrp.length + 1 = (hrp ++ [49]).length := by simp
+      rw [this, List.take_left']; rfl
+    rw [htake, List.map_append, hlow]
+    simp only [List.map_cons, List.map_nil]
+    have : toLower 49 = 49 := by decide
+    rw [this, if_pos rfl, hdec]
+    simp only [ne_eq, not_true_eq_false, if_false]
+    have htk : (hrp ++ [49]).take ((hrp ++ [49]).length - 1) = hrp := by simp
+    rw [htk]
+    cases kind <;> simp [kindLen] at hl <;> simp [hl, newAddress, hlow]
+
+/-- **…and only on that network**: an address of one network prefix is refused
+    (`ErrUnknownAddressType`) when decoded for a different one. -/
+theorem address_wrong_net_rejected (kind : AddrKind) (hrp hrp' prog : Bytes) (hh : GoodHrp hrp)
+    (hp : ∀ b ∈ prog, b < 256) (hl : prog.length = kindLen kind) (hne : hrp' ≠ hrp) (a : Address)
+    (ha : newAddress kind hrp prog = .ok a) :
+    decodeAddress a.encodeAddress hrp' = .error .unknownType := by
+  have hlow := goodHrp_lower hh
+  have hl' : prog.length = 20 ∨ prog.length = 32 := by cases kind <;> simp [kindLen] at hl <;> omega
+  obtain ⟨s, cs, hs, hshape, h49, hdec⟩ := encodeSegWit_ok hrp prog hh hp hl'
+  have hae : a = ⟨kind, hrp, prog⟩ := by
+    cases kind <;> simp [newAddress, kindLen] at hl ha <;> simp [hl, hlow] at ha <;> exact ha.symm
+  subst hae
+  simp only [Address.encodeAddress, hs]
+  unfold decodeAddress
+  have hlast : lastIndexOf 49 s = some hrp.length := by
+    rw [hshape, List.append_assoc]; exact lastIndexOf_append hrp cs 49 h49
+  rw [hlast]
+  simp only
+  split
+  · have htake : s.take (hrp.length + 1) = hrp ++ [49] := by
+      rw [hshape]
+      have : hrp.length + 1 = (hrp ++ [49]).length := by simp
+      rw [this, List.take_left']; rfl
+    rw [htake, List.map_append, hlow]
+    rw [if_neg]
+    intro h
+    have := List.append_inj_left' h (by simp)
+    exact hne this.symm
+  · rfl
 
 /-! ### satisfiability of the hypotheses; tests on literals -/
 
